@@ -47,12 +47,23 @@ def sel_indices(n, sel):
     if sel[0] == "i":
         k = sel[1]
         return [k if k >= 0 else k + n]
+    if sel[0] == "t":                                   # strided slice (C18's extended grammar)
+        return list(range(n))[sel[1]:sel[2]:sel[3]]
+    if sel[0] in ("l", "lp"):                           # index list / index parameter
+        ks = sel[-1]
+        if any(k >= n or k < -n for k in ks):
+            raise IndexError("index list out of range")
+        return [k if k >= 0 else k + n for k in ks]
     return list(range(n))[sel[1]:sel[2]]
 
 
 def sel_py(sel):
     if sel[0] == "i":
         return sel[1]
+    if sel[0] == "t":
+        return slice(sel[1], sel[2], sel[3])
+    if sel[0] in ("l", "lp"):
+        return list(sel[-1])
     return slice(sel[1], sel[2])
 
 
@@ -72,6 +83,8 @@ class GModel:
 
     def par_base(self, q):
         name, kind, data = self.pars[q]
+        if kind == "matrix":                            # row-major
+            return [x for row in data["value"] for x in row]
         return list(data["value"])
 
     def describe(self):
@@ -92,6 +105,12 @@ def ast_size(m: GModel, a):
         return ast_size(m, a[1])
     if op == "powi":
         return ast_size(m, a[1])
+    if op == "matvec":
+        cols = a[2]
+        n, k = len(m.par_base(a[1])), ast_size(m, a[3])
+        if cols == 0 or n % cols or k != cols:
+            raise ValueError("shape")
+        return n // cols
     sizes = [ast_size(m, x) for x in a[1:]]
     n = max(sizes)
     if any(s not in (1, n) for s in sizes):
@@ -297,6 +316,10 @@ def tokens(a):
             return ["w"]
         if s[0] == "i":
             return ["i", str(s[1])]
+        if s[0] == "t":
+            return ["st", "none" if s[1] is None else str(s[1]), "none" if s[2] is None else str(s[2]), str(s[3])]
+        if s[0] in ("l", "lp"):
+            return ["pk", str(len(s[-1]))] + [str(k) for k in s[-1]]
         return ["s", "none" if s[1] is None else str(s[1]), "none" if s[2] is None else str(s[2])]
     if op == "num":
         return ["num", f2h(a[1])]
@@ -304,6 +327,8 @@ def tokens(a):
         return [op, str(a[1])] + sel(a[2])
     if op == "powi":
         return ["powi"] + tokens(a[1]) + [str(a[2])]
+    if op == "matvec":
+        return ["matvec", str(a[1]), str(a[2])] + tokens(a[3])
     out = [op]
     for x in a[1:]:
         out += tokens(x)
@@ -338,6 +363,8 @@ def np_eval(m: GModel, a, env, margins=None):
         base = np.asarray(env["p"][a[1]])
         return base if a[2][0] == "w" else np.atleast_1d(base[sel_py(a[2])])
     ev = lambda x: np_eval(m, x, env, margins)
+    if op == "matvec":
+        return np.asarray(env["p"][a[1]], dtype=float).reshape(-1, a[2]) @ ev(a[3])
 
     def mark(d):
         if margins is not None:
@@ -389,7 +416,7 @@ def par_values(m: GModel, overrides, t, y):
     linearly in t and held after the last node; triggerable parameters re-evaluated from their trigger variable"""
     out = []
     for q, (name, kind, data) in enumerate(m.pars):
-        base = np.array(overrides.get(name, data["value"]), dtype=float)
+        base = np.array(overrides.get(name, data["value"]), dtype=float).reshape(-1)
         if kind in ("ts", "ts_index") and t is not None:
             times, series = np.array(data["times"]), np.array(data["series"])
             v = series[-1] if t >= times[-1] else np.interp(t, times, series)
@@ -410,8 +437,9 @@ def par_values(m: GModel, overrides, t, y):
 
 def build(m: GModel):
     """real Solverz objects"""
-    from Solverz import Model, Var, Param, TimeSeriesParam, Eqn, Ode, AliasVar, sin, cos, exp, ln, Abs, Sign, Min, Saturation, heaviside, AntiWindUp
+    from Solverz import Model, Var, Param, IdxParam, TimeSeriesParam, Eqn, Ode, AliasVar, Mat_Mul, sin, cos, exp, ln, Abs, Sign, Min, Saturation, heaviside, AntiWindUp
     mdl = Model()
+    IDX = {}
     V, P, PV = [], [], []
     for name, vals, _ in m.vars:
         v = Var(name, list(vals))
@@ -423,6 +451,8 @@ def build(m: GModel):
     for name, kind, data in m.pars:
         if kind == "plain":
             prm = Param(name, list(data["value"]))
+        elif kind == "matrix":
+            prm = Param(name, [list(row) for row in data["value"]], dim=2)
         elif kind == "ts":
             prm = TimeSeriesParam(name, v_series=list(data["series"]), time_series=list(data["times"]))
         elif kind == "ts_index":
@@ -440,6 +470,15 @@ def build(m: GModel):
             return obj
         if sel[0] == "i":
             return obj[sel[1]]
+        if sel[0] == "t":
+            return obj[sel[1]:sel[2]:sel[3]]
+        if sel[0] == "l":
+            return obj[list(sel[1])]
+        if sel[0] == "lp":
+            if sel[1] not in IDX:
+                IDX[sel[1]] = IdxParam(sel[1], list(sel[2]))
+                setattr(mdl, sel[1], IDX[sel[1]])
+            return obj[IDX[sel[1]]]
         return obj[sel[1]:sel[2]]
 
     def conv(a):
@@ -467,6 +506,8 @@ def build(m: GModel):
             return conv(a[1]) ** a[2]
         if op in F1:
             return F1[op](conv(a[1]))
+        if op == "matvec":
+            return Mat_Mul(P[a[1]], conv(a[3]))
         if op == "min":
             return Min(conv(a[1]), conv(a[2]))
         if op == "sat":
